@@ -83,6 +83,21 @@ Theorem C06_store_queries : forall s a dn d t, Inv s ->
 Proof. exact store_queries_ok. Qed.
 Print Assumptions C06_store_queries.
 
+(* the ids of a composite = concatenation of a not-unlocking and an unlocking iterator: every lock matching either, exactly once *)
+Theorem C06_composite_exact : forall s u1 k1 a1 d1 p1 k2 a2 d2 p2, Inv s ->
+  let ids := iterate (s_refs s) u1 k1 a1 d1 p1 ++ iterate (s_refs s) (negb u1) k2 a2 d2 p2 in
+  NoDup ids /\
+  forall id, In id ids <-> In id (map l_id (filter (fun l => matches u1 k1 a1 d1 p1 l || matches (negb u1) k2 a2 d2 p2 l) (s_locks s))).
+Proof. exact concat_exact. Qed.
+Print Assumptions C06_composite_exact.
+
+(* spelled out for GetLocksLongerThanDurationDenom, the query the module's own accumulation invariant sums over *)
+Theorem C06_locks_longer_than_duration_denom : forall s dn d, Inv s ->
+  exists ls, q_locks_longer_than_duration_denom s dn d = Ok ls /\ NoDup (map l_id ls) /\
+  forall l, In l ls <-> In l (s_locks s) /\ l_denom l = dn /\ dur_key d <= dur_key (l_dur l).
+Proof. exact locks_longer_than_duration_denom_exact. Qed.
+Print Assumptions C06_locks_longer_than_duration_denom.
+
 (* two instances spelled out: AccountLockIteratorLongerDurationDenom and LockIteratorBeforeTime *)
 Theorem C06_account_longer_duration_denom : forall t0 fund allowed ops unl a dn d id, 0 < t0 -> Forall op_sender_ok ops ->
   let s := reachable t0 fund allowed ops in
